@@ -72,6 +72,10 @@ def run(ctx, rep) -> None:
             tail += 1
             rep.violation(f'{t["id"]}: {t["patches_tail"]} PATCH request(s) in the tail window: the framework keeps writing', payload=t)
     rep.extra['traces_with_tail_writes'] = tail
+    # sub-handlers of sub-handlers (two levels and a sibling leaf), failing leaves, edits at rest, a restart with an edit in between: at rest no
+    # record of any level remains, the last-handled state is the final one, every handler of every level has succeeded on it (ConvergeMonitor.tla)
+    from vf import nested
+    nested.stage(ctx, rep, 'C03')
     # convergence with user transformations in play (conflicts carried forward, failing cycles): the last change is handled
     from concurrent.futures import ProcessPoolExecutor
     from vf import records
